@@ -156,7 +156,7 @@ fn main() {
         let cname = format!("enc{}{}{}{}", cfg.enc, if cfg.comp { "-comp" } else { "" }, if cfg.sign { if cfg.text { "-textsig" } else { "-sig" } } else { "" }, if cfg.armor { "-armor" } else { "" });
         let sizes: Vec<usize> = if thorough { vec![0, 1, 5, 63, 64, 65, 505, 506, 512, 1100, 9000] } else { vec![0, 5, 64, 506, 1100] };
         for n in sizes {
-            let payload: Vec<u8> = if cfg.text { let mut v = Vec::new(); while v.len() < n { v.extend_from_slice(b"ab\r\ncd\n\r"); } v.truncate(n); v } else { cx.rng.bytes(n) };
+            let payload: Vec<u8> = if cfg.text { let mut v = Vec::new(); while v.len() < n { v.extend_from_slice(b"\r\n\nab\r\ncd\n\r\r\n\r\n"); } v.truncate(n); v } else { cx.rng.bytes(n) };
             // reference: everything at once
             let mut reference = Vec::new();
             if build(cfg, &key, &payload[..], &mut reference).is_err() { continue; }
